@@ -454,7 +454,7 @@ def run(ctx):
             nc += k
     ctx.require('R-PARALLEL element cursors', nc, 40)
     from . import C20   # tag queries collect into Set<Tag>, remapping goes through TagMap: the table obligations are C20's, shared
-    ctx.attempt(C20.check_tables, ctx, db)
+    ctx.memo('tables', C20.TABLE_FILES, C20.check_tables, db)
     # copies made by Library::copy_from / Cell::copy_from go through the element copy_from methods: none of them may read a field
     # of the destination before writing it (e.g. the destination's own reference tag)
     from .. import copyrule
@@ -469,5 +469,5 @@ def run(ctx):
 MANIFEST = dict(
     text='Decides structural necessary conditions of library edits for all references and kinds: tagged-union discipline on every Reference member access in the edit/query functions; the rewrite table (arm -> match condition, stores, container update) of each of the four replace_cell overloads and of rename_cell equals the table derived from its signature (pointer match for the old kind, full strcmp on names otherwise, tag stored before the member when the kind changes, name reallocated and copied with 1+strlen(new_name)); every overload visits all cells x all references x all three reference kinds; top_level keeps exactly the cells the direct-dependency maps do not hold; dependency collectors guard recursion by pointer identity and always record the target; tag aggregators visit every tagged element kind and every path element; a deep library copy re-points references into the copy; every element cursor (pointer set to an array start) that a loop of cell.cpp/library.cpp dereferences moves in that loop. Equivalence with an abstract graph model over operation sequences is not decided.',
     note='Trusted: clang front end, gx, sa rules. The expected tables are computed from parameter types (kind(old), kind(new)), not frozen text; conditions are compared after cast normalisation. Readers\' by-name resolution at ENDLIB/END is deliberately not an instance.',
-    technique='tagged-union typestate over the AST (constraint intersection) + table extraction from switch arms compared with a signature-derived specification',
+    technique='tagged-union typestate over the AST (constraint intersection) + table extraction from switch arms compared with a signature-derived specification + explicit-state model of the name/tag hash tables by interpretation of their source (shared with C20)',
     design='§4 C16')
